@@ -83,8 +83,10 @@ def gen_filter(rnd, names, depth=0):
     return '(%s) %s (%s)' % (gen_filter(rnd, names, depth + 1), rnd.choice(['and', 'or']), gen_filter(rnd, names, depth + 1))
 
 
-def gen_decl(rnd, names):
+def gen_decl(rnd, names, p_fail=0.0):
     N, K = rnd.choice(NUMS), rnd.choice(SMALL)
+    if rnd.random() < p_fail:
+        return rnd.choice(['nosuch + 1', 'total / period("week")', 'total > "x"', 'sum(category)', 'max_val(1)', 'months + "1"', 'total / "budget"'])
     forms = ['months >= %s' % K, 'total / months', 'avg(payments)', 'period("month") * %s' % K, 'total / period("year")', 'max(sum(by("month")))',
              'count(by("day"))', 'nosuch + 1', 'sum(payments) - %s' % N, 'months * %s >= period("month")' % K, 'false', '%s' % N,
              'max(payments) if months > 1 else 0', 'min(count(by("month")))']
@@ -94,17 +96,17 @@ def gen_decl(rnd, names):
     return rnd.choice(forms)
 
 
-def gen_file(rnd):
+def gen_file(rnd, p_fail=0.0):
     glob, names = [], []
     for n in rnd.sample(['g', 'h', 'peak'], rnd.choice([0, 0, 1, 2])):
-        glob.append((n, gen_decl(rnd, names)))
+        glob.append((n, gen_decl(rnd, names, p_fail)))
         names.append(n)
     views = []
     for k in range(rnd.choice([1, 2, 3])):
         vnames = list(names)
         loc = []
         for n in rnd.sample(['v', 'w', 'g'], rnd.choice([0, 0, 1, 2])):
-            loc.append((n, gen_decl(rnd, vnames)))
+            loc.append((n, gen_decl(rnd, vnames, p_fail / 2)))
             if n not in vnames:
                 vnames.append(n)
         views.append({'name': 'View %d' % (k + 1), 'vars': loc, 'filter': gen_filter(rnd, vnames)})
@@ -128,11 +130,11 @@ def render(f, rnd):
     return '\n'.join(lines)
 
 
-def record_one(rnd, rid):
+def record_one(rnd, rid, p_fail=0.0):
     from tally.analyzer import analyze_transactions, classify_by_sections, compute_section_totals
     from tally.section_engine import parse_sections
     ms = gen_merchants(rnd)
-    f = gen_file(rnd)
+    f = gen_file(rnd, p_fail)
     try:
         afile = {'globals': [{'n': n, 'e': X.abstract_expr(e)} for n, e in f['globals']],
                  'views': [{'name': k + 1, 'filter': X.abstract_expr(v['filter']), 'vars': [{'n': n, 'e': X.abstract_expr(e)} for n, e in v['vars']]}
@@ -169,11 +171,11 @@ def record_one(rnd, rid):
             '_members': [[names[k - 1] for k in o['members']] for o in obs]}
 
 
-def record_batch(seed, n):
+def record_batch(seed, n, p_fail=0.0):
     rnd = random.Random(seed)
     recs, skipped = [], 0
     for k in range(n):
-        r = record_one(rnd, 'views:%d:%d' % (seed, k))
+        r = record_one(rnd, 'views:%d:%d' % (seed, k), p_fail)
         if r is None:
             skipped += 1
         else:
